@@ -53,6 +53,10 @@ type R struct {
 	Captured []*lisp.LVal
 	// DepthSamples is filled by (verif:depth).
 	DepthSamples []DepthSample
+	// OnProbe, when set, is called by every (verif:probe tag ...) after the event was
+	// recorded: a monitor can act on the host side at a point the program chooses
+	// (C07: fast-forward the gensym counter in the middle of an evaluation).
+	OnProbe func(tag string)
 }
 
 type DepthSample struct {
@@ -171,6 +175,9 @@ func (r *R) addProbes(env *lisp.LEnv) {
 			}
 			r.Trace = append(r.Trace, Probe{Tag: t, Vals: sb.String(), Trees: trees, Steps: e.Runtime.Steps(),
 				Height: len(e.Runtime.Stack.Frames), Nesting: e.Runtime.EvalNesting()})
+			if r.OnProbe != nil {
+				r.OnProbe(t)
+			}
 			if len(a.Cells) > 1 {
 				return a.Cells[len(a.Cells)-1]
 			}
